@@ -344,6 +344,10 @@ fn replace_cases(o: &mut Outcome, rng: &mut Rng, thorough: bool, fixture_bodies:
         texts.push(t);
     }
     texts.extend(fixture_bodies.iter().cloned());
+    // how often the hypothesis of the round-trip theorem holds on the macro bodies of the fixtures
+    for a in run_model(&fixture_bodies.iter().filter(|b| in_domain(b)).map(|b| format!("mac.safe {}", enc_str(b))).collect::<Vec<_>>(), jobs()) {
+        o.count(&format!("replace:fixture-body-hypothesis-{}", a));
+    }
     for t in texts {
         if !in_domain(&t) {
             o.count("replace:text-outside-domain");
@@ -392,6 +396,19 @@ fn undo_cases(o: &mut Outcome, rng: &mut Rng, thorough: bool) {
         seen.push((old_body, line));
     }
     let answers = run_model(&reqs, jobs());
+    // the hypothesis of replaceNames_roundtrip_partial, evaluated: where it holds, what the REAL code returns must be the
+    // body up to white space (the theorem's conclusion, on the code)
+    let safe = run_model(&seen.iter().map(|(b, _)| format!("mac.safe {}", enc_str(b))).collect::<Vec<_>>(), jobs());
+    let squeeze = |s: &str| s.chars().filter(|c| !c.is_whitespace()).collect::<String>();
+    for ((old_body, line), sf) in seen.iter().zip(safe.iter()) {
+        o.count(&format!("undo:hypothesis-{}", sf));
+        if let (Some(l), "safe") = (line, sf.as_str()) {
+            o.direct_evals += 1;
+            if squeeze(l) != squeeze(old_body) {
+                o.direct_failures.push(json!({"sig": "macros:undo-theorem", "what": format!("noSpurious holds for `{}` but the body came back as `{}`", old_body, l)}));
+            }
+        }
+    }
     for ((old_body, line), a) in seen.iter().zip(answers.iter()) {
         o.direct_evals += 1;
         match (line, a.as_str()) {
